@@ -109,6 +109,7 @@ Proof.
   cbn; autorewrite with obsn; cbn; rewrite ?nlc_flags; autorewrite with obsn; cbn;
   rewrite ?orb_false_iff; try tauto;
   try (destruct (status_eqb _ _ && _); cbn; tauto).
-  all: destruct fatal; autorewrite with obsn; tauto.
+  all: try (destruct fatal; autorewrite with obsn; tauto).
+  all: destruct found; cbn; tauto.
 Qed.
 
